@@ -374,7 +374,7 @@ def exec_run(task, cd):
     # the environment the program is started in: B is set, the other names the cases use are not
     for n in ('A', 'K_E', 'K_V', 'X'):
         os.environ.pop(n, None)
-    r = inproc.run_main(task['argv'], cd, env={'B': 'b0'})
+    r = inproc.run_main(task['argv'], cd, env={'B': 'b0'}, trace=bool(task.get('trace')))
     lines = []
     if os.path.exists(log):
         with open(log, encoding='utf-8', errors='replace') as fh:
@@ -383,7 +383,8 @@ def exec_run(task, cd):
                 stderr=r['stderr'][:6000], log=lines[:2000], home=cd.home, tmp=tmp,
                 env_after={n: os.environ.get(n) for n in ('A', 'B')}, env_changed=r['env_changed'],
                 cwd_ok=r['cwd_after'] == r['cwd_before'], cwd_after=r['cwd_after'],
-                sandboxes_left=[n for n in os.listdir(tmp) if n.startswith('exactly-')])
+                sandboxes_left=[n for n in os.listdir(tmp) if n.startswith('exactly-')],
+                events=r.get('trace') or [])
 
 
 def exec_subprocess(task, cd):
@@ -629,6 +630,11 @@ def replay_runs(ctx, recs, label, subprocess_sample=0):
     rnd = random.Random(ctx.seed + 17)
     multi = [j for j, r in enumerate(recs) if r['way'] == 'suite' and len(r['idents']) > 1]
     sub_idx = rnd.sample(multi, min(subprocess_sample, len(multi)))
+    # code -> spec: the hook traces of a seeded sample of the runs - one process, several executions - are validated
+    # by PhaseExecTrace (every execution of a suite run is a behaviour of the executor's specification)
+    traced = set(rnd.sample(range(len(tasks)), min(len(tasks), max(300, len(tasks) // 6))))
+    for j in traced:
+        tasks[j] = dict(tasks[j], trace=True)
     with ctx.pool() as pool:
         obs = pool.map('harness.props.c17:exec_run', tasks, deadline=120, chunk=4)
         sub_obs = pool.map('harness.props.c17:exec_subprocess', [tasks[j] for j in sub_idx], deadline=180, chunk=1)
@@ -641,6 +647,11 @@ def replay_runs(ctx, recs, label, subprocess_sample=0):
     failing.sort(key=lambda f: f[0])         # smallest first: the replay files written are the minimal examples
     for _, sig, record in failing:
         ctx.fail(sig, record)
+    from harness import trace_exec
+    items = [dict(id='%s %s' % (label, brief(recs[j])), events=obs[j]['events'], argv=tasks[j]['argv'], files=tasks[j]['files'])
+             for j in sorted(traced) if obs[j].get('events')]
+    if items:
+        trace_exec.validate(ctx, items, 'suite and case runs (%s)' % label)
     ctx.cov['traces_validated_against_impl'] += len(tasks) + len(sub_idx)
     by = {}
     for r in recs:
@@ -934,6 +945,9 @@ def run(ctx):
 
 def replay(ctx, rec):
     r = rec['record']
+    if r.get('kind') == 'trace':
+        from harness import trace_exec
+        return trace_exec.replay(ctx, r)
     t = r['task']
     f = 'harness.props.c17:exec_subprocess' if r.get('how') == 'subprocess' else 'harness.props.c17:exec_run'
     with ctx.pool(workers=1) as pool:
